@@ -959,7 +959,7 @@ impl<'a> ActiveFileSet<'a> {
                 continue;
             };
 
-            if file_name.starts_with(&file_prefix) && file_name.ends_with(&file_ext) {
+            if is_file_set_member(file_name, file_prefix, file_ext) {
                 file_set.push(file_name.to_owned());
             }
         }
@@ -1200,6 +1200,37 @@ fn read_file_path_ts(path: &Path) -> Result<&str, io::Error> {
 
 fn file_name(file_prefix: &str, file_ext: &str, ts: &str, id: &str) -> String {
     format!("{}.{}.{}.{}", file_prefix, ts, id, file_ext)
+}
+
+/**
+Whether a file name has the shape `{prefix}.{date}.{counter}.{id}.{ext}`.
+
+Other files may share the directory, including other file sets with a longer or shorter prefix or extension, so it's not enough to just check how the name starts and ends.
+*/
+fn is_file_set_member(file_name: &str, file_prefix: &str, file_ext: &str) -> bool {
+    let Some(parts) = file_name
+        .strip_prefix(file_prefix)
+        .and_then(|rest| rest.strip_prefix('.'))
+        .and_then(|rest| rest.strip_suffix(file_ext))
+        .and_then(|rest| rest.strip_suffix('.'))
+    else {
+        return false;
+    };
+
+    let mut parts = parts.split('.');
+
+    let (Some(date), Some(counter), Some(id), None) =
+        (parts.next(), parts.next(), parts.next(), parts.next())
+    else {
+        return false;
+    };
+
+    !date.is_empty()
+        && date.bytes().all(|b| b.is_ascii_digit() || b == b'-')
+        && !counter.is_empty()
+        && counter.bytes().all(|b| b.is_ascii_digit())
+        && !id.is_empty()
+        && id.bytes().all(|b| b.is_ascii_hexdigit())
 }
 
 trait Filesystem {
